@@ -26,8 +26,8 @@ ROOTS = ["r", "ord1", "a--b", "x--y--z", "клиент".encode("utf-8").decode("
 
 def execute(spec):
     import sys
-    if "/repo" not in sys.path:
-        sys.path.insert(0, "/repo")
+    if __import__("harness").REPO not in sys.path:
+        sys.path.insert(0, __import__("harness").REPO)
     from asyncfix import FIXMessage, FMsg, FTag
     from asyncfix.protocol.order_single import FIXNewOrderSingle
     from asyncfix.protocol.common import FOrdStatus
